@@ -878,22 +878,28 @@ def run_async(facts, path, args, heap=None, oracle=None, inline=(), bind=None):
     return out, it.heap, it.events
 
 
-def default_args(facts, path, heap, names=None):
+def default_args(facts, path, heap, rename=None):
     """opaque arguments for body `path` named after its parameters; a closure environment becomes a
-    closure value whose captures are tokens named after the captured variables"""
+    closure value whose captures are tokens named after the captured variables.
+    rename(name, type) -> token name (optional) lets a rule name values by their role"""
     b = facts.bodies[path]
+    rn = rename or (lambda n, t: n)
     args = []
     for i in range(1, b.rec["argc"] + 1):
         ty = b.locals[i]["ty"]
-        nm = (names or {}).get(i) or b.local_name(i) or "arg%d" % i
         if i == 1 and b.kind == "closure":
-            caps = [Tok(u if isinstance(u, str) else (u.get("name") or "cap%d" % j)) for j, u in enumerate(b.upvars or [])]
-            env = ("closure", path, caps)
+            caps = {}
+            for nm, pl in (b.upvars or {}).items():
+                fld = [pr for pr in pl["p"] if pr[0] == "field"]
+                if fld:
+                    caps[fld[0][1]] = Tok(rn(nm, fld[0][3] if len(fld[0]) > 3 else ""))
+            n = (max(caps) + 1) if caps else 0
+            env = ("closure", path, [caps.get(j, Tok("cap%d" % j)) for j in range(n)])
             if ty.startswith("&"):
                 heap["env"] = env
                 args.append(href("env"))
             else:
                 args.append(env)
         else:
-            args.append(Tok(nm))
+            args.append(Tok(rn(b.local_name(i) or "arg%d" % i, ty)))
     return args
